@@ -47,6 +47,18 @@ fn mix_txs(mix: u8, h: u64) -> Vec<Tx> {
             b.inputs[0].script_sig = vec![0x51; 11];
             vec![b, a]
         }
+        // transactions that carry the null outpoint without being a coinbase: as the first of two inputs, as the second of two,
+        // and a one-input transaction with the null txid but index 0 - each with a first output far above the subsidy
+        6 => {
+            let null = TxIn { prev_txid: [0; 32], prev_index: 0xffff_ffff, script_sig: vec![0x51], sequence: 0xffff_ffff, witness: vec![] };
+            let mut almost = null.clone();
+            almost.prev_index = 0;
+            vec![
+                Tx { version: 1, segwit: false, inputs: vec![null.clone(), spend(1)], outputs: vec![pay(3, 60 * COIN_VALUE)], locktime: 0, wide: 0 },
+                Tx { version: 1, segwit: false, inputs: vec![spend(2), null], outputs: vec![pay(4, 70 * COIN_VALUE)], locktime: 0, wide: 0 },
+                Tx { version: 1, segwit: false, inputs: vec![almost], outputs: vec![pay(5, 80 * COIN_VALUE)], locktime: 0, wide: 0 },
+            ]
+        }
         // a segwit tx that is the biggest on disk but not witness-stripped, next to a larger legacy tx
         _ => {
             let mut i = spend(1);
@@ -106,7 +118,7 @@ pub fn run() -> Report {
             frontier = next;
         }
         for s in &seqs {
-            for mix in 0..6u8 {
+            for mix in 0..7u8 {
                 if cn == "litecoin" && !thorough && (mix + s.len() as u8) % 3 != 0 {
                     continue;
                 }
@@ -143,7 +155,7 @@ pub fn run() -> Report {
             cases.push(Case { coin: cn, base, times: vec![1000, 2000, 2500], mix: 1, cb_delta: 5000, types_world: false, label: "reward shift >= 64" });
         }
     }
-    rep.rule = "chains of 1..4 blocks x ALL timestamp sequences over {1, 1000, 4e9} (non-monotonic, equal, gaps summing beyond 2^32) x 6 transaction mixes (coinbase only, +1 tx, value tie, stripped-size tie, segwit tx biggest on disk only, a tx with wide CompactSize forms) on bitcoin (all) and litecoin; coinbase first-output value {reward-1, reward, reward+1, reward+5000, 0, alternating reward+5000 / reward-1000} x start heights around the halvings (sparse indexes); one world per coin with every script class; every figure of the parsed report compared with an exact integer / rational recomputation; non-trivial = distinct case with >= 2 blocks".into();
+    rep.rule = "chains of 1..4 blocks x ALL timestamp sequences over {1, 1000, 4e9} (non-monotonic, equal, gaps summing beyond 2^32) x 7 transaction mixes (null outpoints in non-coinbase transactions, coinbase only, +1 tx, value tie, stripped-size tie, segwit tx biggest on disk only, a tx with wide CompactSize forms) on bitcoin (all) and litecoin; coinbase first-output value {reward-1, reward, reward+1, reward+5000, 0, alternating reward+5000 / reward-1000} x start heights around the halvings (sparse indexes); one world per coin with every script class; every figure of the parsed report compared with an exact integer / rational recomputation; non-trivial = distinct case with >= 2 blocks".into();
     rep.bound = json!({"cases": cases.len(), "timestamps": tvals, "max_blocks": 4});
     rep.not_covered = vec!["value sums >= 2^64".into(), "header time 0 (used as 'no previous block' sentinel by the code; cannot occur after 1970)".into()];
     let root = refmodel::world::scratch_root();
